@@ -4,6 +4,7 @@ use mc_core::Ctx;
 mod c08;
 mod c50;
 mod c51;
+mod probe;
 
 fn main() {
     let ctx = Ctx::from_args();
